@@ -47,6 +47,17 @@ Proof. exact restore_law. Qed.
 Theorem C17_composite_orders : orders_ok = true.
 Proof. exact orders_ok_true. Qed.
 
+(* a composite constructs exactly the part contexts its documentation promises (spec_composite_args,
+   hand-written in Laws.v), each from the promised argument — so that, with C17_takes_effect, entering
+   it puts those values in force: fast_computations(covar_root_decomposition, log_prob, solves) hands
+   flag i to part i; linalg_dtypes(default, symeig, cholesky) hands `symeig or default` to the symeig
+   part and `cholesky or default` to the cholesky part *)
+Theorem C17_composite_args : forall k args g ps parts,
+  spec_composite_args k args = Some parts -> new k args g = Some ps ->
+  map fst ps = map fst parts /\
+  Forall2 (fun p q => pinit (fst q) (snd q) (get (fst q) g) = Some (snd p)) ps parts.
+Proof. exact composite_args_law. Qed.
+
 (* non-vacuity: a concrete nested, interleaved history with re-use and a context created before
    another one is entered runs without error on the generated model and is well nested *)
 Example C17_nonvacuous :
